@@ -153,11 +153,12 @@ func spikeRF() error {
 
 func spikeHang() error {
 	for _, c := range []struct{ ratio, offs, base, quote string }{
-		{"1.0001", "0", "1000", "2000"},
-		{"1.0001", "0", "1000000000000000000000000000000000", "1"},
-		{"1", "0", "1000", "2000"},
-		{"0.5", "0", "2000", "1000"},
-		{"1.000000000000000001", "0", "1000", "2000"},
+		{"2", "-0.5", "476555980", "53217587"},
+		{"2", "0.5", "476555980", "53217587"},
+		{"1.9", "-0.5", "476555980", "53217587"},
+		{"1.5", "-0.999999999999999999", "476555980", "53217587"},
+		{"3", "-0.5", "476555980", "53217587"},
+		{"1000000", "-0.5", "476555980", "53217587"},
 	} {
 		b, _ := new(big.Int).SetString(c.base, 10)
 		q, _ := new(big.Int).SetString(c.quote, 10)
